@@ -482,15 +482,52 @@ def run_steps(steps, Event, call, judge=None):
     return out
 
 
-def minimise_session(log, Event, call, judge, sig, max_steps=60):
+def judge_in_subprocess(module, steps, timeout=180):
+    """The verdict of the LAST of `steps` when they are run, on rebuilt objects, in a fresh interpreter against the
+    same tree (`python -m <module> judge <file>` prints `VERDICT <clause or OK>`): the process that found the failure
+    carries the history of everything it ran before, a fresh one only what the steps say."""
+    import os
+    import subprocess
+    import tempfile
+    from . import common
+    fd, path = tempfile.mkstemp(prefix="txhist-", suffix=".json")
+    try:
+        with os.fdopen(fd, "w") as f:
+            json.dump({"session": steps}, f)
+        env = dict(os.environ)
+        env["PYTHONPATH"] = f"{common.REPO}:{common.VERIF}"
+        env["VERIF_REPO"] = common.REPO
+        p = subprocess.run([sys.executable, "-m", module, "judge", path], cwd=common.VERIF, env=env, timeout=timeout,
+                           stdout=subprocess.PIPE, stderr=subprocess.STDOUT, text=True)
+        for line in reversed(p.stdout.splitlines()):
+            if line.startswith("VERDICT "):
+                v = line[len("VERDICT "):]
+                return None if v == "OK" else v
+        return "judge-failed: " + p.stdout[-300:]
+    finally:
+        os.unlink(path)
+
+
+def judge_main(path, judge, call=None):
+    """body of `python -m <module> judge <file>`: judge(step, args) -> clause or None (makes the last call itself)"""
+    from . import common
+    common.setup_impl_env()
+    from aw_core.models import Event
+    steps = json.load(open(path))["session"]
+    v = run_steps(steps, Event, call or generic_call(QueryLayer()), judge(Event))
+    print("VERDICT " + ("OK" if v in (None, "skip") else str(v).replace("\n", " ")))
+    return 0
+
+
+def minimise_session(log, module, sig, max_steps=25):
     """log: the steps up to and including the failing call.  Drops earlier steps while the last call still fails
-    the clause `sig` on rebuilt objects; returns the full log when the failure does not reproduce that way."""
+    the clause `sig` in a fresh process; returns (steps, reproduced-in-a-fresh-process?)."""
     from .common import shrink_list
     last = log[-1]
 
     def fails(cand):
         try:
-            m = run_steps(list(cand) + [last], Event, call, judge)
+            m = judge_in_subprocess(module, list(cand) + [last])
         except Exception:  # noqa: BLE001
             return False
         return m is not None and m.split(":")[0] == sig
@@ -500,7 +537,7 @@ def minimise_session(log, Event, call, judge, sig, max_steps=60):
 
 
 def session_replay(steps, minimal):
-    return {"session": steps, "minimised": bool(minimal),
+    return {"session": steps, "reproduced_and_minimised_in_a_fresh_process": bool(minimal),
             "how_to_read": "calls made one after the other in one process; lists / events / data dicts with the same token "
                            "are the same Python object (fields as they were at that call); event = [token, timestamp_us, "
                            "duration_us, data (typed text), id, data-dict token]",
